@@ -1,1 +1,1300 @@
-//! (to be written)
+//! QPACK (RFC 9204): static table, field-line representations, encoder/decoder stream
+//! instructions, dynamic table model and a reference decoder. Written from the RFC.
+//!
+//! Error normalisation (so that "need more bytes" is always exactly `QErr::Truncated`):
+//!   * any kind of running out of input (inside an integer, inside a string length, inside
+//!     string data, or before the 2-byte section prefix is complete) -> `QErr::Truncated`
+//!   * integer too large (not a string length)                      -> `QErr::Int(IntErr::Overflow)`
+//!   * string length too large                                       -> `QErr::Str(StrErr::Int(IntErr::Overflow))`
+//!   * Huffman violation                                             -> `QErr::Str(StrErr::Huffman(_))`
+
+use crate::qint::{self, IntErr};
+use crate::qstr::{self, StrErr};
+use std::collections::VecDeque;
+
+// ---------------------------------------------------------------------------------------------
+// Static table (RFC 9204 Appendix A)
+// ---------------------------------------------------------------------------------------------
+
+pub static STATIC_TABLE: [(&str, &str); 99] = [
+    (":authority", ""),                                         // 0
+    (":path", "/"),                                             // 1
+    ("age", "0"),                                               // 2
+    ("content-disposition", ""),                                // 3
+    ("content-length", "0"),                                    // 4
+    ("cookie", ""),                                             // 5
+    ("date", ""),                                               // 6
+    ("etag", ""),                                               // 7
+    ("if-modified-since", ""),                                  // 8
+    ("if-none-match", ""),                                      // 9
+    ("last-modified", ""),                                      // 10
+    ("link", ""),                                               // 11
+    ("location", ""),                                           // 12
+    ("referer", ""),                                            // 13
+    ("set-cookie", ""),                                         // 14
+    (":method", "CONNECT"),                                     // 15
+    (":method", "DELETE"),                                      // 16
+    (":method", "GET"),                                         // 17
+    (":method", "HEAD"),                                        // 18
+    (":method", "OPTIONS"),                                     // 19
+    (":method", "POST"),                                        // 20
+    (":method", "PUT"),                                         // 21
+    (":scheme", "http"),                                        // 22
+    (":scheme", "https"),                                       // 23
+    (":status", "103"),                                         // 24
+    (":status", "200"),                                         // 25
+    (":status", "304"),                                         // 26
+    (":status", "404"),                                         // 27
+    (":status", "503"),                                         // 28
+    ("accept", "*/*"),                                          // 29
+    ("accept", "application/dns-message"),                      // 30
+    ("accept-encoding", "gzip, deflate, br"),                   // 31
+    ("accept-ranges", "bytes"),                                 // 32
+    ("access-control-allow-headers", "cache-control"),          // 33
+    ("access-control-allow-headers", "content-type"),           // 34
+    ("access-control-allow-origin", "*"),                       // 35
+    ("cache-control", "max-age=0"),                             // 36
+    ("cache-control", "max-age=2592000"),                       // 37
+    ("cache-control", "max-age=604800"),                        // 38
+    ("cache-control", "no-cache"),                              // 39
+    ("cache-control", "no-store"),                              // 40
+    ("cache-control", "public, max-age=31536000"),              // 41
+    ("content-encoding", "br"),                                 // 42
+    ("content-encoding", "gzip"),                               // 43
+    ("content-type", "application/dns-message"),                // 44
+    ("content-type", "application/javascript"),                 // 45
+    ("content-type", "application/json"),                       // 46
+    ("content-type", "application/x-www-form-urlencoded"),      // 47
+    ("content-type", "image/gif"),                              // 48
+    ("content-type", "image/jpeg"),                             // 49
+    ("content-type", "image/png"),                              // 50
+    ("content-type", "text/css"),                               // 51
+    ("content-type", "text/html; charset=utf-8"),               // 52
+    ("content-type", "text/plain"),                             // 53
+    ("content-type", "text/plain;charset=utf-8"),               // 54
+    ("range", "bytes=0-"),                                      // 55
+    ("strict-transport-security", "max-age=31536000"),          // 56
+    ("strict-transport-security", "max-age=31536000; includesubdomains"), // 57
+    ("strict-transport-security", "max-age=31536000; includesubdomains; preload"), // 58
+    ("vary", "accept-encoding"),                                // 59
+    ("vary", "origin"),                                         // 60
+    ("x-content-type-options", "nosniff"),                      // 61
+    ("x-xss-protection", "1; mode=block"),                      // 62
+    (":status", "100"),                                         // 63
+    (":status", "204"),                                         // 64
+    (":status", "206"),                                         // 65
+    (":status", "302"),                                         // 66
+    (":status", "400"),                                         // 67
+    (":status", "403"),                                         // 68
+    (":status", "421"),                                         // 69
+    (":status", "425"),                                         // 70
+    (":status", "500"),                                         // 71
+    ("accept-language", ""),                                    // 72
+    ("access-control-allow-credentials", "FALSE"),              // 73
+    ("access-control-allow-credentials", "TRUE"),               // 74
+    ("access-control-allow-headers", "*"),                      // 75
+    ("access-control-allow-methods", "get"),                    // 76
+    ("access-control-allow-methods", "get, post, options"),     // 77
+    ("access-control-allow-methods", "options"),                // 78
+    ("access-control-expose-headers", "content-length"),        // 79
+    ("access-control-request-headers", "content-type"),         // 80
+    ("access-control-request-method", "get"),                   // 81
+    ("access-control-request-method", "post"),                  // 82
+    ("alt-svc", "clear"),                                       // 83
+    ("authorization", ""),                                      // 84
+    (
+        "content-security-policy",
+        "script-src 'none'; object-src 'none'; base-uri 'none'",
+    ), // 85
+    ("early-data", "1"),                                        // 86
+    ("expect-ct", ""),                                          // 87
+    ("forwarded", ""),                                          // 88
+    ("if-range", ""),                                           // 89
+    ("origin", ""),                                             // 90
+    ("purpose", "prefetch"),                                    // 91
+    ("server", ""),                                             // 92
+    ("timing-allow-origin", "*"),                               // 93
+    ("upgrade-insecure-requests", "1"),                         // 94
+    ("user-agent", ""),                                         // 95
+    ("x-forwarded-for", ""),                                    // 96
+    ("x-frame-options", "deny"),                                // 97
+    ("x-frame-options", "sameorigin"),                          // 98
+];
+
+/// Static table entry as an owned field, `None` if `index >= 99`.
+pub fn static_field(index: u64) -> Option<Field> {
+    if index >= STATIC_TABLE.len() as u64 {
+        return None;
+    }
+    let (n, v) = STATIC_TABLE[index as usize];
+    Some((n.as_bytes().to_vec(), v.as_bytes().to_vec()))
+}
+
+// ---------------------------------------------------------------------------------------------
+// Types
+// ---------------------------------------------------------------------------------------------
+
+pub type Field = (Vec<u8>, Vec<u8>);
+
+#[derive(Debug, Clone, PartialEq, Eq)]
+pub enum QErr {
+    Truncated,
+    Int(IntErr),
+    Str(StrErr),
+    StaticIndexOutOfRange(u64),
+    DynamicReference,
+    NonZeroRequiredInsertCount(u64),
+    NonZeroBase,
+    InvalidIndex,
+    Blocked(u64 /*required insert count*/),
+    InvalidRequiredInsertCount,
+    CapacityExceeded,
+    InvalidInstruction,
+}
+
+#[derive(Debug, Clone, PartialEq, Eq)]
+pub enum Repr {
+    IndexedStatic(u64),
+    IndexedDynamic(u64 /*relative to base*/),
+    IndexedPostBase(u64),
+    LiteralNameRefStatic { index: u64, never_indexed: bool, value: Vec<u8> },
+    LiteralNameRefDynamic { index: u64, never_indexed: bool, value: Vec<u8> },
+    LiteralPostBaseNameRef { index: u64, never_indexed: bool, value: Vec<u8> },
+    LiteralName { never_indexed: bool, name: Vec<u8>, value: Vec<u8> },
+}
+
+#[derive(Debug, Clone, PartialEq, Eq)]
+pub struct Section {
+    pub encoded_ric: u64,
+    pub sign: bool,
+    pub delta_base: u64,
+    pub reprs: Vec<Repr>,
+}
+
+fn int_err(e: IntErr) -> QErr {
+    match e {
+        IntErr::Truncated => QErr::Truncated,
+        IntErr::Overflow => QErr::Int(IntErr::Overflow),
+    }
+}
+
+fn str_err(e: StrErr) -> QErr {
+    match e {
+        StrErr::Truncated => QErr::Truncated,
+        StrErr::Int(IntErr::Truncated) => QErr::Truncated,
+        other => QErr::Str(other),
+    }
+}
+
+// ---------------------------------------------------------------------------------------------
+// Field sections: syntactic parsing (RFC 9204 Section 4.5)
+// ---------------------------------------------------------------------------------------------
+
+/// Parses the Encoded Field Section Prefix (Section 4.5.1).
+/// Returns (encoded required insert count, sign, delta base, bytes consumed).
+pub fn parse_prefix(b: &[u8]) -> Result<(u64, bool, u64, usize), QErr> {
+    let (_, encoded_ric, n1) = qint::decode(8, b).map_err(int_err)?;
+    let (s, delta_base, n2) = qint::decode(7, &b[n1..]).map_err(int_err)?;
+    Ok((encoded_ric, s & 1 == 1, delta_base, n1 + n2))
+}
+
+/// Parses one field line representation at the start of `b`. Returns it and the bytes consumed.
+pub fn parse_repr(b: &[u8]) -> Result<(Repr, usize), QErr> {
+    let first = *b.first().ok_or(QErr::Truncated)?;
+    if first & 0x80 != 0 {
+        // 1 T index(6+): Indexed Field Line (4.5.2)
+        let (flags, index, n) = qint::decode(6, b).map_err(int_err)?;
+        let is_static = flags & 1 == 1;
+        let r = if is_static { Repr::IndexedStatic(index) } else { Repr::IndexedDynamic(index) };
+        Ok((r, n))
+    } else if first & 0xc0 == 0x40 {
+        // 0 1 N T index(4+), value: Literal Field Line with Name Reference (4.5.4)
+        let (flags, index, n) = qint::decode(4, b).map_err(int_err)?;
+        let never_indexed = flags & 0b10 != 0;
+        let is_static = flags & 0b01 != 0;
+        let (_, value, m) = qstr::decode(8, &b[n..]).map_err(str_err)?;
+        let r = if is_static {
+            Repr::LiteralNameRefStatic { index, never_indexed, value }
+        } else {
+            Repr::LiteralNameRefDynamic { index, never_indexed, value }
+        };
+        Ok((r, n + m))
+    } else if first & 0xe0 == 0x20 {
+        // 0 0 1 N H namelen(3+), name, value: Literal Field Line with Literal Name (4.5.6)
+        let (flags, name, n) = qstr::decode(4, b).map_err(str_err)?;
+        let never_indexed = flags & 1 == 1;
+        let (_, value, m) = qstr::decode(8, &b[n..]).map_err(str_err)?;
+        Ok((Repr::LiteralName { never_indexed, name, value }, n + m))
+    } else if first & 0xf0 == 0x10 {
+        // 0 0 0 1 index(4+): Indexed Field Line with Post-Base Index (4.5.3)
+        let (_, index, n) = qint::decode(4, b).map_err(int_err)?;
+        Ok((Repr::IndexedPostBase(index), n))
+    } else {
+        // 0 0 0 0 N index(3+), value: Literal Field Line with Post-Base Name Reference (4.5.5)
+        let (flags, index, n) = qint::decode(3, b).map_err(int_err)?;
+        let never_indexed = flags & 1 == 1;
+        let (_, value, m) = qstr::decode(8, &b[n..]).map_err(str_err)?;
+        Ok((Repr::LiteralPostBaseNameRef { index, never_indexed, value }, n + m))
+    }
+}
+
+fn parse_reprs(b: &[u8]) -> Result<Vec<Repr>, QErr> {
+    let mut reprs = Vec::new();
+    let mut pos = 0usize;
+    while pos < b.len() {
+        let (r, n) = parse_repr(&b[pos..])?;
+        reprs.push(r);
+        pos += n;
+    }
+    Ok(reprs)
+}
+
+/// Purely syntactic parse of a whole encoded field section (prefix + field lines until the
+/// end of `b`).
+pub fn parse_section(b: &[u8]) -> Result<Section, QErr> {
+    let (encoded_ric, sign, delta_base, n) = parse_prefix(b)?;
+    let reprs = parse_reprs(&b[n..])?;
+    Ok(Section { encoded_ric, sign, delta_base, reprs })
+}
+
+fn static_only_fields(reprs: &[Repr]) -> Result<Vec<Field>, QErr> {
+    let mut fields = Vec::new();
+    for r in reprs {
+        match r {
+            Repr::IndexedStatic(i) => {
+                fields.push(static_field(*i).ok_or(QErr::StaticIndexOutOfRange(*i))?);
+            }
+            Repr::LiteralNameRefStatic { index, value, .. } => {
+                let (name, _) = static_field(*index).ok_or(QErr::StaticIndexOutOfRange(*index))?;
+                fields.push((name, value.clone()));
+            }
+            Repr::LiteralName { name, value, .. } => fields.push((name.clone(), value.clone())),
+            Repr::IndexedDynamic(_)
+            | Repr::IndexedPostBase(_)
+            | Repr::LiteralNameRefDynamic { .. }
+            | Repr::LiteralPostBaseNameRef { .. } => return Err(QErr::DynamicReference),
+        }
+    }
+    Ok(fields)
+}
+
+/// Decoding for an endpoint with dynamic table capacity 0, following the RFC exactly.
+///
+/// * Encoded Required Insert Count != 0 -> `NonZeroRequiredInsertCount(encoded)`. (With a
+///   maximum capacity of 0, MaxEntries = 0 and FullRange = 0, so Section 4.5.1.1 rejects every
+///   non-zero encoded value.)
+/// * Sign = 1 -> `NonZeroBase`: with Required Insert Count 0, "Required Insert Count <= Delta
+///   Base" always holds, which Section 4.5.1.2 says MUST be treated as invalid (negative Base).
+/// * Sign = 0 and Delta Base != 0 is ACCEPTED: Section 4.5.1.2 says "A field section that was
+///   encoded without references to the dynamic table can use any value for the Base; setting
+///   Delta Base to zero is one of the most efficient encodings." Use
+///   `decode_static_only_zero_base` for the stricter (non-RFC) variant that rejects it.
+/// * any dynamic / post-base representation -> `DynamicReference`.
+/// * static index >= 99 -> `StaticIndexOutOfRange(index)`.
+///
+/// Check order: whole-section syntax first, then prefix, then representations in order.
+pub fn decode_static_only(b: &[u8]) -> Result<Vec<Field>, QErr> {
+    let s = parse_section(b)?;
+    if s.encoded_ric != 0 {
+        return Err(QErr::NonZeroRequiredInsertCount(s.encoded_ric));
+    }
+    if s.sign {
+        return Err(QErr::NonZeroBase);
+    }
+    static_only_fields(&s.reprs)
+}
+
+/// Like `decode_static_only`, but additionally rejects Sign = 0 with Delta Base != 0 as
+/// `NonZeroBase`. This is STRICTER than RFC 9204 (see `decode_static_only`).
+pub fn decode_static_only_zero_base(b: &[u8]) -> Result<Vec<Field>, QErr> {
+    let s = parse_section(b)?;
+    if s.encoded_ric != 0 {
+        return Err(QErr::NonZeroRequiredInsertCount(s.encoded_ric));
+    }
+    if s.sign || s.delta_base != 0 {
+        return Err(QErr::NonZeroBase);
+    }
+    static_only_fields(&s.reprs)
+}
+
+// ---------------------------------------------------------------------------------------------
+// Field sections: serialisation
+// ---------------------------------------------------------------------------------------------
+
+/// Serialises one representation. `huffman` selects H = 1 for every string.
+pub fn encode_repr(r: &Repr, huffman: bool) -> Vec<u8> {
+    match r {
+        Repr::IndexedStatic(i) => qint::encode(6, 0b11, *i),
+        Repr::IndexedDynamic(i) => qint::encode(6, 0b10, *i),
+        Repr::IndexedPostBase(i) => qint::encode(4, 0b0001, *i),
+        Repr::LiteralNameRefStatic { index, never_indexed, value } => {
+            let flags = 0b0100 | ((*never_indexed as u8) << 1) | 1;
+            let mut out = qint::encode(4, flags, *index);
+            out.extend(qstr::encode(8, 0, value, huffman));
+            out
+        }
+        Repr::LiteralNameRefDynamic { index, never_indexed, value } => {
+            let flags = 0b0100 | ((*never_indexed as u8) << 1);
+            let mut out = qint::encode(4, flags, *index);
+            out.extend(qstr::encode(8, 0, value, huffman));
+            out
+        }
+        Repr::LiteralPostBaseNameRef { index, never_indexed, value } => {
+            let mut out = qint::encode(3, *never_indexed as u8, *index);
+            out.extend(qstr::encode(8, 0, value, huffman));
+            out
+        }
+        Repr::LiteralName { never_indexed, name, value } => {
+            let flags = 0b0010 | (*never_indexed as u8);
+            let mut out = qstr::encode(4, flags, name, huffman);
+            out.extend(qstr::encode(8, 0, value, huffman));
+            out
+        }
+    }
+}
+
+/// Serialise representations (for building test inputs). `huffman` selects H=1 for every string.
+pub fn encode_section_raw(
+    encoded_ric: u64,
+    sign: bool,
+    delta_base: u64,
+    reprs: &[Repr],
+    huffman: bool,
+) -> Vec<u8> {
+    let mut out = qint::encode(8, 0, encoded_ric);
+    out.extend(qint::encode(7, sign as u8, delta_base));
+    for r in reprs {
+        out.extend(encode_repr(r, huffman));
+    }
+    out
+}
+
+/// Section `00 00` + one "literal field line with literal name" per field (arbitrary bytes allowed).
+pub fn encode_literal_section(fields: &[Field], huffman: bool) -> Vec<u8> {
+    let reprs: Vec<Repr> = fields
+        .iter()
+        .map(|(n, v)| Repr::LiteralName { never_indexed: false, name: n.clone(), value: v.clone() })
+        .collect();
+    encode_section_raw(0, false, 0, &reprs, huffman)
+}
+
+/// Best static-table representation of one field: indexed if (name, value) is in the static
+/// table, literal with static name reference (first entry with that name) if only the name
+/// is, else literal name. Comparison is bytewise (case-sensitive).
+pub fn best_static_repr(name: &[u8], value: &[u8]) -> Repr {
+    let mut name_match: Option<u64> = None;
+    for (i, (n, v)) in STATIC_TABLE.iter().enumerate() {
+        if n.as_bytes() == name {
+            if v.as_bytes() == value {
+                return Repr::IndexedStatic(i as u64);
+            }
+            if name_match.is_none() {
+                name_match = Some(i as u64);
+            }
+        }
+    }
+    match name_match {
+        Some(index) => {
+            Repr::LiteralNameRefStatic { index, never_indexed: false, value: value.to_vec() }
+        }
+        None => Repr::LiteralName {
+            never_indexed: false,
+            name: name.to_vec(),
+            value: value.to_vec(),
+        },
+    }
+}
+
+/// Section `00 00` + best static representation per field.
+pub fn encode_static_section(fields: &[Field], huffman: bool) -> Vec<u8> {
+    let reprs: Vec<Repr> = fields.iter().map(|(n, v)| best_static_repr(n, v)).collect();
+    encode_section_raw(0, false, 0, &reprs, huffman)
+}
+
+/// RFC 9114 Section 4.2.2 field section size: sum of name.len() + value.len() + 32.
+pub fn section_size(fields: &[Field]) -> u64 {
+    fields.iter().map(|f| entry_size(f)).sum()
+}
+
+/// Size of one entry (RFC 9204 Section 3.2.1): name length + value length + 32.
+pub fn entry_size(f: &Field) -> u64 {
+    f.0.len() as u64 + f.1.len() as u64 + 32
+}
+
+// ---------------------------------------------------------------------------------------------
+// Dynamic table (RFC 9204 Section 3.2)
+// ---------------------------------------------------------------------------------------------
+
+/// FIFO of fields. Absolute index `a` (Section 3.2.4) is the a-th inserted entry, counted
+/// from 0; it never changes for the lifetime of the entry.
+#[derive(Debug, Clone, PartialEq, Eq)]
+pub struct DynTable {
+    /// Oldest entry (absolute index `dropped`) at the front.
+    entries: VecDeque<Field>,
+    capacity: u64,
+    size: u64,
+    dropped: u64,
+}
+
+impl DynTable {
+    pub fn new(capacity: u64) -> Self {
+        DynTable { entries: VecDeque::new(), capacity, size: 0, dropped: 0 }
+    }
+
+    pub fn capacity(&self) -> u64 {
+        self.capacity
+    }
+
+    /// Sum of name + value + 32 over all live entries.
+    pub fn size(&self) -> u64 {
+        self.size
+    }
+
+    /// Total insert count.
+    pub fn inserted(&self) -> u64 {
+        self.dropped + self.entries.len() as u64
+    }
+
+    /// Evicted count (= absolute index of the oldest live entry).
+    pub fn dropped(&self) -> u64 {
+        self.dropped
+    }
+
+    /// Number of live entries.
+    pub fn len(&self) -> usize {
+        self.entries.len()
+    }
+
+    pub fn is_empty(&self) -> bool {
+        self.entries.is_empty()
+    }
+
+    /// Absolute index; `None` if evicted or not yet inserted.
+    pub fn get_abs(&self, abs: u64) -> Option<&Field> {
+        if abs < self.dropped {
+            return None;
+        }
+        let off = abs - self.dropped;
+        if off >= self.entries.len() as u64 {
+            return None;
+        }
+        self.entries.get(off as usize)
+    }
+
+    fn evict_oldest(&mut self) {
+        let f = self.entries.pop_front().expect("evict from empty table");
+        self.size -= entry_size(&f);
+        self.dropped += 1;
+    }
+
+    /// Sets the capacity, evicting oldest entries until size <= capacity (Section 3.2.3).
+    /// The table itself knows no maximum, so this never fails; `RefDecoder::apply` enforces
+    /// the maximum.
+    pub fn set_capacity(&mut self, c: u64) -> Result<(), QErr> {
+        self.capacity = c;
+        while self.size > self.capacity {
+            self.evict_oldest();
+        }
+        Ok(())
+    }
+
+    /// Section 3.2.2: evict oldest entries until the new one fits, then append it.
+    /// `CapacityExceeded` (table unchanged) if the entry alone is larger than the capacity.
+    pub fn insert(&mut self, f: Field) -> Result<(), QErr> {
+        let sz = entry_size(&f);
+        if sz > self.capacity {
+            return Err(QErr::CapacityExceeded);
+        }
+        while self.size + sz > self.capacity {
+            self.evict_oldest();
+        }
+        self.size += sz;
+        self.entries.push_back(f);
+        Ok(())
+    }
+}
+
+// ---------------------------------------------------------------------------------------------
+// Encoder stream (Section 4.3) and decoder stream (Section 4.4)
+// ---------------------------------------------------------------------------------------------
+
+#[derive(Debug, Clone, PartialEq, Eq)]
+pub enum EncInstr {
+    SetCapacity(u64),
+    InsertNameRefStatic { index: u64, value: Vec<u8> },
+    InsertNameRefDynamic { rel_index: u64, value: Vec<u8> },
+    InsertLiteral { name: Vec<u8>, value: Vec<u8> },
+    Duplicate(u64 /*relative*/),
+}
+
+/// Parses one encoder-stream instruction at the start of `b`.
+pub fn parse_enc_instr(b: &[u8]) -> Result<(EncInstr, usize), QErr> {
+    let first = *b.first().ok_or(QErr::Truncated)?;
+    if first & 0x80 != 0 {
+        // 1 T index(6+), value: Insert with Name Reference (4.3.2)
+        let (flags, index, n) = qint::decode(6, b).map_err(int_err)?;
+        let is_static = flags & 1 == 1;
+        let (_, value, m) = qstr::decode(8, &b[n..]).map_err(str_err)?;
+        let i = if is_static {
+            EncInstr::InsertNameRefStatic { index, value }
+        } else {
+            EncInstr::InsertNameRefDynamic { rel_index: index, value }
+        };
+        Ok((i, n + m))
+    } else if first & 0xc0 == 0x40 {
+        // 0 1 H namelen(5+), name, value: Insert with Literal Name (4.3.3)
+        let (_, name, n) = qstr::decode(6, b).map_err(str_err)?;
+        let (_, value, m) = qstr::decode(8, &b[n..]).map_err(str_err)?;
+        Ok((EncInstr::InsertLiteral { name, value }, n + m))
+    } else if first & 0xe0 == 0x20 {
+        // 0 0 1 capacity(5+): Set Dynamic Table Capacity (4.3.1)
+        let (_, c, n) = qint::decode(5, b).map_err(int_err)?;
+        Ok((EncInstr::SetCapacity(c), n))
+    } else {
+        // 0 0 0 index(5+): Duplicate (4.3.4)
+        let (_, i, n) = qint::decode(5, b).map_err(int_err)?;
+        Ok((EncInstr::Duplicate(i), n))
+    }
+}
+
+/// Parse as many COMPLETE instructions as `b` holds. Returns (instruction, end offset in b)
+/// pairs; bytes after the last end offset are an incomplete instruction. Err only for
+/// malformed (not merely truncated) input.
+pub fn parse_encoder_stream(b: &[u8]) -> Result<Vec<(EncInstr, usize)>, QErr> {
+    let mut out = Vec::new();
+    let mut pos = 0usize;
+    while pos < b.len() {
+        match parse_enc_instr(&b[pos..]) {
+            Ok((i, n)) => {
+                pos += n;
+                out.push((i, pos));
+            }
+            Err(QErr::Truncated) => break,
+            Err(e) => return Err(e),
+        }
+    }
+    Ok(out)
+}
+
+/// Serialises an encoder-stream instruction. `huffman` selects H = 1 for every string.
+pub fn encode_enc_instr(i: &EncInstr, huffman: bool) -> Vec<u8> {
+    match i {
+        EncInstr::SetCapacity(c) => qint::encode(5, 0b001, *c),
+        EncInstr::InsertNameRefStatic { index, value } => {
+            let mut out = qint::encode(6, 0b11, *index);
+            out.extend(qstr::encode(8, 0, value, huffman));
+            out
+        }
+        EncInstr::InsertNameRefDynamic { rel_index, value } => {
+            let mut out = qint::encode(6, 0b10, *rel_index);
+            out.extend(qstr::encode(8, 0, value, huffman));
+            out
+        }
+        EncInstr::InsertLiteral { name, value } => {
+            let mut out = qstr::encode(6, 0b01, name, huffman);
+            out.extend(qstr::encode(8, 0, value, huffman));
+            out
+        }
+        EncInstr::Duplicate(i) => qint::encode(5, 0b000, *i),
+    }
+}
+
+#[derive(Debug, Clone, PartialEq, Eq)]
+pub enum DecInstr {
+    SectionAck(u64 /*stream id*/),
+    StreamCancel(u64),
+    InsertCountIncrement(u64),
+}
+
+/// Parses one decoder-stream instruction at the start of `b`.
+pub fn parse_dec_instr(b: &[u8]) -> Result<(DecInstr, usize), QErr> {
+    let first = *b.first().ok_or(QErr::Truncated)?;
+    if first & 0x80 != 0 {
+        // 1 stream id(7+): Section Acknowledgment (4.4.1)
+        let (_, id, n) = qint::decode(7, b).map_err(int_err)?;
+        Ok((DecInstr::SectionAck(id), n))
+    } else if first & 0x40 != 0 {
+        // 0 1 stream id(6+): Stream Cancellation (4.4.2)
+        let (_, id, n) = qint::decode(6, b).map_err(int_err)?;
+        Ok((DecInstr::StreamCancel(id), n))
+    } else {
+        // 0 0 increment(6+): Insert Count Increment (4.4.3)
+        let (_, inc, n) = qint::decode(6, b).map_err(int_err)?;
+        Ok((DecInstr::InsertCountIncrement(inc), n))
+    }
+}
+
+/// Same contract as `parse_encoder_stream`, for the decoder stream.
+pub fn parse_decoder_stream(b: &[u8]) -> Result<Vec<(DecInstr, usize)>, QErr> {
+    let mut out = Vec::new();
+    let mut pos = 0usize;
+    while pos < b.len() {
+        match parse_dec_instr(&b[pos..]) {
+            Ok((i, n)) => {
+                pos += n;
+                out.push((i, pos));
+            }
+            Err(QErr::Truncated) => break,
+            Err(e) => return Err(e),
+        }
+    }
+    Ok(out)
+}
+
+pub fn encode_dec_instr(i: &DecInstr) -> Vec<u8> {
+    match i {
+        DecInstr::SectionAck(id) => qint::encode(7, 0b1, *id),
+        DecInstr::StreamCancel(id) => qint::encode(6, 0b01, *id),
+        DecInstr::InsertCountIncrement(n) => qint::encode(6, 0b00, *n),
+    }
+}
+
+// ---------------------------------------------------------------------------------------------
+// Required Insert Count (Section 4.5.1.1)
+// ---------------------------------------------------------------------------------------------
+
+/// Encoder side of Section 4.5.1.1: 0 if `ric` is 0, else (ric mod (2 * MaxEntries)) + 1,
+/// with MaxEntries = floor(max_capacity / 32). Panics if ric != 0 and MaxEntries == 0.
+pub fn encode_required_insert_count(ric: u64, max_capacity: u64) -> u64 {
+    if ric == 0 {
+        return 0;
+    }
+    let max_entries = max_capacity / 32;
+    assert!(max_entries > 0, "non-zero Required Insert Count with MaxEntries = 0");
+    (ric % (2 * max_entries)) + 1
+}
+
+/// Decoder side of Section 4.5.1.1, transcribed from the RFC's pseudocode.
+pub fn reconstruct_required_insert_count(
+    encoded: u64,
+    max_capacity: u64,
+    total_inserts: u64,
+) -> Result<u64, QErr> {
+    if encoded == 0 {
+        return Ok(0);
+    }
+    // u128 so that nothing can wrap.
+    let encoded = encoded as u128;
+    let max_entries = (max_capacity / 32) as u128;
+    let full_range = 2 * max_entries;
+    if encoded > full_range {
+        return Err(QErr::InvalidRequiredInsertCount);
+    }
+    // full_range >= encoded >= 1 from here on.
+    let max_value = total_inserts as u128 + max_entries;
+    let max_wrapped = (max_value / full_range) * full_range;
+    let mut ric = max_wrapped + encoded - 1;
+    if ric > max_value {
+        if ric <= full_range {
+            return Err(QErr::InvalidRequiredInsertCount);
+        }
+        ric -= full_range;
+    }
+    if ric == 0 {
+        return Err(QErr::InvalidRequiredInsertCount);
+    }
+    if ric > u64::MAX as u128 {
+        return Err(QErr::InvalidRequiredInsertCount);
+    }
+    Ok(ric as u64)
+}
+
+// ---------------------------------------------------------------------------------------------
+// Reference decoder
+// ---------------------------------------------------------------------------------------------
+
+#[derive(Debug, Clone, PartialEq, Eq)]
+pub struct RefDecoder {
+    pub table: DynTable,
+    /// SETTINGS_QPACK_MAX_TABLE_CAPACITY as advertised by this decoder.
+    pub max_capacity: u64,
+}
+
+#[derive(Debug, Clone, PartialEq, Eq)]
+pub struct DecodedSection {
+    pub fields: Vec<Field>,
+    pub required_insert_count: u64,
+    pub base: u64,
+    /// Absolute indices of every dynamic entry referenced, in order of appearance.
+    pub refs: Vec<u64>,
+}
+
+impl RefDecoder {
+    /// Table starts with capacity 0 until SetCapacity; SetCapacity > max_capacity is an error.
+    pub fn new(max_capacity: u64) -> Self {
+        RefDecoder { table: DynTable::new(0), max_capacity }
+    }
+
+    pub fn new_with_capacity(max_capacity: u64, initial_capacity: u64) -> Self {
+        assert!(initial_capacity <= max_capacity);
+        RefDecoder { table: DynTable::new(initial_capacity), max_capacity }
+    }
+
+    /// Encoder-stream relative index (Section 3.2.5): 0 = most recently inserted entry.
+    fn enc_relative(&self, rel: u64) -> Result<&Field, QErr> {
+        let inserted = self.table.inserted();
+        if rel >= inserted {
+            return Err(QErr::InvalidIndex);
+        }
+        self.table.get_abs(inserted - 1 - rel).ok_or(QErr::InvalidIndex)
+    }
+
+    /// Applies one encoder-stream instruction. Errors (all QPACK_ENCODER_STREAM_ERROR in the
+    /// RFC; the table is left unchanged):
+    ///   * SetCapacity above `max_capacity`                       -> `CapacityExceeded`
+    ///   * entry larger than the current capacity                 -> `CapacityExceeded`
+    ///   * static name index >= 99                                -> `StaticIndexOutOfRange`
+    ///   * relative index to an evicted / never inserted entry    -> `InvalidIndex`
+    pub fn apply(&mut self, i: &EncInstr) -> Result<(), QErr> {
+        match i {
+            EncInstr::SetCapacity(c) => {
+                if *c > self.max_capacity {
+                    return Err(QErr::CapacityExceeded);
+                }
+                self.table.set_capacity(*c)
+            }
+            EncInstr::InsertNameRefStatic { index, value } => {
+                let (name, _) = static_field(*index).ok_or(QErr::StaticIndexOutOfRange(*index))?;
+                self.table.insert((name, value.clone()))
+            }
+            EncInstr::InsertNameRefDynamic { rel_index, value } => {
+                // Copy the name before inserting: the referenced entry may be evicted by
+                // this very insertion (Section 3.2.2), which is legal.
+                let name = self.enc_relative(*rel_index)?.0.clone();
+                self.table.insert((name, value.clone()))
+            }
+            EncInstr::InsertLiteral { name, value } => {
+                self.table.insert((name.clone(), value.clone()))
+            }
+            EncInstr::Duplicate(rel) => {
+                let f = self.enc_relative(*rel)?.clone();
+                self.table.insert(f)
+            }
+        }
+    }
+
+    /// Full Section 4.5.1 reconstruction of Required Insert Count and Base, then resolution
+    /// of every representation.
+    ///
+    /// Check order:
+    ///   1. prefix syntax (`Truncated` / `Int`)
+    ///   2. Required Insert Count reconstruction (`InvalidRequiredInsertCount`)
+    ///   3. Base: Sign = 1 with Required Insert Count <= Delta Base (negative Base), or Base
+    ///      not representable in u64                               -> `InvalidIndex`
+    ///   4. Required Insert Count > table.inserted()               -> `Blocked(ric)`
+    ///   5. field lines, in order; syntax errors, `StaticIndexOutOfRange`, or `InvalidIndex`
+    ///      for a dynamic reference whose absolute index is negative, >= Required Insert
+    ///      Count (Section 2.2.3), or already evicted.
+    pub fn decode_section(&self, b: &[u8]) -> Result<DecodedSection, QErr> {
+        let (encoded_ric, sign, delta_base, n) = parse_prefix(b)?;
+        let ric = reconstruct_required_insert_count(
+            encoded_ric,
+            self.max_capacity,
+            self.table.inserted(),
+        )?;
+        let base: u64 = if sign {
+            if ric <= delta_base {
+                return Err(QErr::InvalidIndex);
+            }
+            ric - delta_base - 1
+        } else {
+            ric.checked_add(delta_base).ok_or(QErr::InvalidIndex)?
+        };
+        if ric > self.table.inserted() {
+            return Err(QErr::Blocked(ric));
+        }
+
+        let mut fields = Vec::new();
+        let mut refs = Vec::new();
+        let mut pos = n;
+        while pos < b.len() {
+            let (r, m) = parse_repr(&b[pos..])?;
+            pos += m;
+            match r {
+                Repr::IndexedStatic(i) => {
+                    fields.push(static_field(i).ok_or(QErr::StaticIndexOutOfRange(i))?);
+                }
+                Repr::LiteralNameRefStatic { index, value, .. } => {
+                    let (name, _) =
+                        static_field(index).ok_or(QErr::StaticIndexOutOfRange(index))?;
+                    fields.push((name, value));
+                }
+                Repr::LiteralName { name, value, .. } => fields.push((name, value)),
+                Repr::IndexedDynamic(rel) => {
+                    let abs = relative_to_abs(base, rel)?;
+                    fields.push(self.lookup(abs, ric)?.clone());
+                    refs.push(abs);
+                }
+                Repr::IndexedPostBase(p) => {
+                    let abs = post_base_to_abs(base, p)?;
+                    fields.push(self.lookup(abs, ric)?.clone());
+                    refs.push(abs);
+                }
+                Repr::LiteralNameRefDynamic { index, value, .. } => {
+                    let abs = relative_to_abs(base, index)?;
+                    let name = self.lookup(abs, ric)?.0.clone();
+                    fields.push((name, value));
+                    refs.push(abs);
+                }
+                Repr::LiteralPostBaseNameRef { index, value, .. } => {
+                    let abs = post_base_to_abs(base, index)?;
+                    let name = self.lookup(abs, ric)?.0.clone();
+                    fields.push((name, value));
+                    refs.push(abs);
+                }
+            }
+        }
+        Ok(DecodedSection { fields, required_insert_count: ric, base, refs })
+    }
+
+    fn lookup(&self, abs: u64, ric: u64) -> Result<&Field, QErr> {
+        if abs >= ric {
+            return Err(QErr::InvalidIndex);
+        }
+        self.table.get_abs(abs).ok_or(QErr::InvalidIndex)
+    }
+}
+
+/// Field-section relative index (Section 3.2.5): 0 refers to absolute index Base - 1.
+fn relative_to_abs(base: u64, rel: u64) -> Result<u64, QErr> {
+    if rel >= base {
+        return Err(QErr::InvalidIndex);
+    }
+    Ok(base - 1 - rel)
+}
+
+/// Post-Base index (Section 3.2.6): 0 refers to absolute index Base.
+fn post_base_to_abs(base: u64, p: u64) -> Result<u64, QErr> {
+    base.checked_add(p).ok_or(QErr::InvalidIndex)
+}
+
+#[cfg(test)]
+mod tests {
+    use super::*;
+    use crate::huffman::HuffErr;
+
+    fn unhex(s: &str) -> Vec<u8> {
+        let digits: Vec<u8> = s
+            .bytes()
+            .filter(|c| !c.is_ascii_whitespace())
+            .map(|c| (c as char).to_digit(16).expect("hex digit") as u8)
+            .collect();
+        assert!(digits.len() % 2 == 0);
+        digits.chunks(2).map(|p| (p[0] << 4) | p[1]).collect()
+    }
+
+    fn f(n: &str, v: &str) -> Field {
+        (n.as_bytes().to_vec(), v.as_bytes().to_vec())
+    }
+
+    // ----- static table -----
+
+    #[test]
+    fn static_table_spot_checks() {
+        assert_eq!(STATIC_TABLE.len(), 99);
+        let expect: &[(usize, &str, &str)] = &[
+            (0, ":authority", ""),
+            (1, ":path", "/"),
+            (2, "age", "0"),
+            (4, "content-length", "0"),
+            (15, ":method", "CONNECT"),
+            (16, ":method", "DELETE"),
+            (17, ":method", "GET"),
+            (18, ":method", "HEAD"),
+            (19, ":method", "OPTIONS"),
+            (20, ":method", "POST"),
+            (21, ":method", "PUT"),
+            (22, ":scheme", "http"),
+            (23, ":scheme", "https"),
+            (24, ":status", "103"),
+            (25, ":status", "200"),
+            (26, ":status", "304"),
+            (27, ":status", "404"),
+            (28, ":status", "503"),
+            (29, "accept", "*/*"),
+            (31, "accept-encoding", "gzip, deflate, br"),
+            (44, "content-type", "application/dns-message"),
+            (45, "content-type", "application/javascript"),
+            (46, "content-type", "application/json"),
+            (47, "content-type", "application/x-www-form-urlencoded"),
+            (48, "content-type", "image/gif"),
+            (49, "content-type", "image/jpeg"),
+            (50, "content-type", "image/png"),
+            (51, "content-type", "text/css"),
+            (52, "content-type", "text/html; charset=utf-8"),
+            (53, "content-type", "text/plain"),
+            (54, "content-type", "text/plain;charset=utf-8"),
+            (63, ":status", "100"),
+            (64, ":status", "204"),
+            (65, ":status", "206"),
+            (66, ":status", "302"),
+            (67, ":status", "400"),
+            (68, ":status", "403"),
+            (69, ":status", "421"),
+            (70, ":status", "425"),
+            (71, ":status", "500"),
+            (95, "user-agent", ""),
+            (96, "x-forwarded-for", ""),
+            (97, "x-frame-options", "deny"),
+            (98, "x-frame-options", "sameorigin"),
+        ];
+        for &(i, n, v) in expect {
+            assert_eq!(STATIC_TABLE[i], (n, v), "static index {i}");
+        }
+    }
+
+    #[test]
+    fn static_table_name_order() {
+        // Names in RFC 9204 Appendix A order, with the number of consecutive entries each has.
+        let runs: &[(&str, usize)] = &[
+            (":authority", 1),
+            (":path", 1),
+            ("age", 1),
+            ("content-disposition", 1),
+            ("content-length", 1),
+            ("cookie", 1),
+            ("date", 1),
+            ("etag", 1),
+            ("if-modified-since", 1),
+            ("if-none-match", 1),
+            ("last-modified", 1),
+            ("link", 1),
+            ("location", 1),
+            ("referer", 1),
+            ("set-cookie", 1),
+            (":method", 7),
+            (":scheme", 2),
+            (":status", 5),
+            ("accept", 2),
+            ("accept-encoding", 1),
+            ("accept-ranges", 1),
+            ("access-control-allow-headers", 2),
+            ("access-control-allow-origin", 1),
+            ("cache-control", 6),
+            ("content-encoding", 2),
+            ("content-type", 11),
+            ("range", 1),
+            ("strict-transport-security", 3),
+            ("vary", 2),
+            ("x-content-type-options", 1),
+            ("x-xss-protection", 1),
+            (":status", 9),
+            ("accept-language", 1),
+            ("access-control-allow-credentials", 2),
+            ("access-control-allow-headers", 1),
+            ("access-control-allow-methods", 3),
+            ("access-control-expose-headers", 1),
+            ("access-control-request-headers", 1),
+            ("access-control-request-method", 2),
+            ("alt-svc", 1),
+            ("authorization", 1),
+            ("content-security-policy", 1),
+            ("early-data", 1),
+            ("expect-ct", 1),
+            ("forwarded", 1),
+            ("if-range", 1),
+            ("origin", 1),
+            ("purpose", 1),
+            ("server", 1),
+            ("timing-allow-origin", 1),
+            ("upgrade-insecure-requests", 1),
+            ("user-agent", 1),
+            ("x-forwarded-for", 1),
+            ("x-frame-options", 2),
+        ];
+        let mut i = 0usize;
+        for &(name, count) in runs {
+            for _ in 0..count {
+                assert_eq!(STATIC_TABLE[i].0, name, "static index {i}");
+                i += 1;
+            }
+        }
+        assert_eq!(i, 99);
+        // Structural properties of Appendix A: all names lower-case; within each of the two
+        // halves (0..=14 | 15..=62 | 63..=98) names are sorted; no duplicate (name, value).
+        for (n, _) in STATIC_TABLE.iter() {
+            assert!(!n.bytes().any(|c| c.is_ascii_uppercase()));
+        }
+        for range in [0..15usize, 15..63, 63..99] {
+            let names: Vec<&str> = STATIC_TABLE[range].iter().map(|e| e.0).collect();
+            let mut sorted = names.clone();
+            sorted.sort();
+            assert_eq!(names, sorted);
+        }
+        for a in 0..99 {
+            for b in a + 1..99 {
+                assert_ne!(STATIC_TABLE[a], STATIC_TABLE[b], "{a} == {b}");
+            }
+        }
+        assert_eq!(static_field(98), Some(f("x-frame-options", "sameorigin")));
+        assert_eq!(static_field(99), None);
+    }
+
+    // ----- field sections -----
+
+    #[test]
+    fn rfc9204_b1_literal_with_name_reference() {
+        let b = unhex("0000 510b 2f69 6e64 6578 2e68 746d 6c");
+        let s = parse_section(&b).unwrap();
+        assert_eq!(
+            s,
+            Section {
+                encoded_ric: 0,
+                sign: false,
+                delta_base: 0,
+                reprs: vec![Repr::LiteralNameRefStatic {
+                    index: 1,
+                    never_indexed: false,
+                    value: b"/index.html".to_vec()
+                }],
+            }
+        );
+        assert_eq!(decode_static_only(&b), Ok(vec![f(":path", "/index.html")]));
+        assert_eq!(encode_static_section(&[f(":path", "/index.html")], false), b);
+        assert_eq!(
+            encode_section_raw(0, false, 0, &s.reprs, false),
+            b,
+            "re-serialisation is byte-identical"
+        );
+        let d = RefDecoder::new(0).decode_section(&b).unwrap();
+        assert_eq!(d.fields, vec![f(":path", "/index.html")]);
+        assert_eq!((d.required_insert_count, d.base, d.refs.len()), (0, 0, 0));
+    }
+
+    #[test]
+    fn first_byte_patterns() {
+        // One of each representation with hand-assembled bytes.
+        let b: Vec<u8> = vec![
+            0x00, 0x00, // prefix
+            0b1101_0001, // indexed static 17
+            0b1000_0011, // indexed dynamic 3
+            0b0001_0010, // indexed post-base 2
+            0b0111_0001, 0x01, b'x', // literal name ref: N=1 T=1 index 1, value "x"
+            0b0100_0101, 0x01, b'y', // literal name ref: N=0 T=0 index 5, value "y"
+            0b0000_1010, 0x01, b'z', // literal post-base name ref: N=1 index 2, value "z"
+            0b0011_0001, b'n', 0x01, b'v', // literal name: N=1 H=0 len 1 "n", value "v"
+        ];
+        let s = parse_section(&b).unwrap();
+        let expect = vec![
+            Repr::IndexedStatic(17),
+            Repr::IndexedDynamic(3),
+            Repr::IndexedPostBase(2),
+            Repr::LiteralNameRefStatic { index: 1, never_indexed: true, value: b"x".to_vec() },
+            Repr::LiteralNameRefDynamic { index: 5, never_indexed: false, value: b"y".to_vec() },
+            Repr::LiteralPostBaseNameRef { index: 2, never_indexed: true, value: b"z".to_vec() },
+            Repr::LiteralName { never_indexed: true, name: b"n".to_vec(), value: b"v".to_vec() },
+        ];
+        assert_eq!(s.reprs, expect);
+        assert_eq!(encode_section_raw(0, false, 0, &expect, false), b);
+        assert_eq!(decode_static_only(&b), Err(QErr::DynamicReference));
+    }
+
+    #[test]
+    fn repr_round_trips_at_prefix_boundaries() {
+        let idx = [0u64, 1, 6, 7, 8, 14, 15, 16, 62, 63, 64, 98, 99, 200, 1 << 20, (1 << 62) - 1];
+        let vals: [&[u8]; 4] = [b"", b"v", &[0u8; 126], &[0xffu8; 200]];
+        let mut reprs = Vec::new();
+        for &i in &idx {
+            reprs.push(Repr::IndexedStatic(i));
+            reprs.push(Repr::IndexedDynamic(i));
+            reprs.push(Repr::IndexedPostBase(i));
+            for &v in &vals {
+                for &n in &[false, true] {
+                    reprs.push(Repr::LiteralNameRefStatic {
+                        index: i,
+                        never_indexed: n,
+                        value: v.to_vec(),
+                    });
+                    reprs.push(Repr::LiteralNameRefDynamic {
+                        index: i,
+                        never_indexed: n,
+                        value: v.to_vec(),
+                    });
+                    reprs.push(Repr::LiteralPostBaseNameRef {
+                        index: i,
+                        never_indexed: n,
+                        value: v.to_vec(),
+                    });
+                }
+            }
+        }
+        for name_len in [0usize, 1, 6, 7, 8, 134, 135, 300] {
+            let name: Vec<u8> = (0..name_len).map(|i| b'a' + (i % 26) as u8).collect();
+            for &n in &[false, true] {
+                reprs.push(Repr::LiteralName {
+                    never_indexed: n,
+                    name: name.clone(),
+                    value: b"val".to_vec(),
+                });
+            }
+        }
+        for &h in &[false, true] {
+            for &(ric, sign, db) in
+                &[(0u64, false, 0u64), (254, true, 126), (255, false, 127), (1 << 40, true, 1 << 40)]
+            {
+                let b = encode_section_raw(ric, sign, db, &reprs, h);
+                let s = parse_section(&b).unwrap();
+                assert_eq!((s.encoded_ric, s.sign, s.delta_base), (ric, sign, db));
+                assert_eq!(s.reprs, reprs);
+            }
+            // One at a time, and every strict prefix of a single representation is Truncated.
+            for r in &reprs {
+                let e = encode_repr(r, h);
+                assert_eq!(parse_repr(&e), Ok((r.clone(), e.len())));
+                for cut in 0..e.len() {
+                    assert_eq!(parse_repr(&e[..cut]), Err(QErr::Truncated), "{r:?} cut {cut}");
+                }
+            }
+        }
+    }
+
+    #[test]
+    fn section_prefix_errors() {
+        assert_eq!(parse_section(&[]), Err(QErr::Truncated));
+        assert_eq!(parse_section(&[0x00]), Err(QErr::Truncated));
+        assert_eq!(parse_section(&[0xff]), Err(QErr::Truncated));
+        assert_eq!(parse_section(&[0x00, 0x7f]), Err(QErr::Truncated));
+        assert_eq!(
+            parse_section(&[0x00, 0x00]),
+            Ok(Section { encoded_ric: 0, sign: false, delta_base: 0, reprs: vec![] })
+        );
+        assert_eq!(decode_static_only(&[0x00, 0x00]), Ok(vec![]));
+        // RIC too large for 62 bits.
+        let mut b = qint::encode(8, 0, 1 << 62);
+        b.push(0);
+        assert_eq!(parse_section(&b), Err(QErr::Int(IntErr::Overflow)));
+    }
+
+    #[test]
+    fn static_only_rules() {
+        let body = [0b1101_0001u8]; // :method GET
+        let mk = |ric: u64, s: bool, db: u64| {
+            let mut b = qint::encode(8, 0, ric);
+            b.extend(qint::encode(7, s as u8, db));
+            b.extend_from_slice(&body);
+            b
+        };
+        let get = vec![f(":method", "GET")];
+        assert_eq!(decode_static_only(&mk(0, false, 0)), Ok(get.clone()));
+        assert_eq!(decode_static_only(&mk(1, false, 0)), Err(QErr::NonZeroRequiredInsertCount(1)));
+        assert_eq!(
+            decode_static_only(&mk(300, true, 3)),
+            Err(QErr::NonZeroRequiredInsertCount(300))
+        );
+        // Sign = 1 with RIC 0: Base would be negative, MUST be rejected.
+        assert_eq!(decode_static_only(&mk(0, true, 0)), Err(QErr::NonZeroBase));
+        assert_eq!(decode_static_only(&mk(0, true, 5)), Err(QErr::NonZeroBase));
+        // Sign = 0, Delta Base != 0, no dynamic references: legal per Section 4.5.1.2.
+        assert_eq!(decode_static_only(&mk(0, false, 5)), Ok(get.clone()));
+        assert_eq!(decode_static_only_zero_base(&mk(0, false, 5)), Err(QErr::NonZeroBase));
+        assert_eq!(decode_static_only_zero_base(&mk(0, false, 0)), Ok(get.clone()));
+        // The general decoder agrees on all three.
+        let d = RefDecoder::new(0);
+        assert_eq!(d.decode_section(&mk(0, false, 5)).map(|s| s.fields), Ok(get.clone()));
+        assert_eq!(d.decode_section(&mk(0, true, 0)), Err(QErr::InvalidIndex));
+        assert_eq!(d.decode_section(&mk(1, false, 0)), Err(QErr::InvalidRequiredInsertCount));
+
+        // Static index range.
+        assert_eq!(
+            decode_static_only(&[0, 0, 0b1111_1111, 35]), // 63 + 35 = 98
+            Ok(vec![f("x-frame-options", "sameorigin")])
+        );
+        assert_eq!(
+            decode_static_only(&[0, 0, 0b1111_1111, 36]),
+            Err(QErr::StaticIndexOutOfRange(99))
+        );
+        // Name reference 4-bit prefix: 15 + 84 = 99.
+        assert_eq!(
+            decode_static_only(&[0, 0, 0b0101_1111, 84, 0x00]),
+            Err(QErr::StaticIndexOutOfRange(99))
+        );
+        assert_eq!(
+            decode_static_only(&[0, 0, 0b0101_1111, 83, 0x00]),
+            Ok(vec![f("x-frame-options", "")])
+        );
+        // Each dynamic form.
+        for body in [
+            vec![0b1000_0000u8],
+            vec![0b0001_0000],
+            vec![0b0100_0000, 0x00],
+            vec![0b0000_0000, 0x00],
+        ] {
+            let mut b = vec![0u8, 0];
+            b.extend(body);
+            assert_eq!(decode_static_only(&b), Err(QErr::DynamicReference));
+        }
+        // Truncated / Huffman errors in field lines.
+        assert_eq!(decode_static_only(&[0, 0, 0x51, 0x0b, b'/']), Err(QErr::Truncated));
+        assert_eq!(decode_static_only(&[0, 0, 0x51]), Err(QErr::Truncated));
+        assert_eq!(decode_static_only(&[0, 0, 0x27]), Err(QErr::Truncated));
+        assert_eq!(
+            decode_static_only(&[0, 0, 0x51, 0x81, 0xff]),
+            Err(QErr::Str(StrErr::Huffman(HuffErr::PaddingTooLong)))
+        );
+        assert_eq!(
+            decode_static_only(&[0, 0, 0b0010_1001, 0b0000_0110, 0x00]),
+            Err(QErr::Str(StrErr::Huffman(HuffErr::PaddingNotOnes)))
+        );
+        assert_eq!(
+            decode_static_only(&[0, 0, 0x51, 0x84, 0xff, 0xff, 0xff, 0xff]),
+            Err(QErr::Str(StrErr::Huffman(HuffErr::EosInString)))
+        );
+    }
+
+    #[test]
+    fn encoders_round_trip_through_decoders() {
+        let fields = vec![
+            f(":method", "GET"),
+            f(":scheme", "https"),
+            f(":path", "/"),
+            f(":path", "/index.html"),
+            f(":authority", "www.example.com"),
+            f("user-agent", "x"),
+            f("x-custom", "some value"),
+            f("", ""),
+            (vec![0x00, 0xff, b'A'], vec![0x80, b'\n', b'\r', 0x00]),
+            (b"long-name-".repeat(30), b"v".repeat(1000)),
+            f(":METHOD", "GET"), // not in the static table: bytewise comparison
+        ];
+        for &h in &[false, true] {
+            let lit = encode_literal_section(&fields, h);
+            assert_eq!(&lit[..2], &[0, 0]);
+            assert_eq!(decode_static_only(&lit), Ok(fields.clone()));
+            let s = parse_section(&lit).unwrap();
+            assert!(s.reprs.iter().all(|r| matches!(r, Repr::LiteralName { .. })));
+            assert_eq!(s.reprs.len(), fields.len());
+
+            let st = encode_static_section(&fields, h);
+            assert_eq!(&st[..2], &[0, 0]);
+            assert_eq!(decode_static_only(&st), Ok(fields.clone()));
+            assert_eq!(RefDecoder::new(4096).decode_section(&st).unwrap().fields, fields);
+            let s = parse_section(&st).unwrap();
+            assert_eq!(s.reprs[0], Repr::IndexedStatic(17));
+            assert_eq!(s.reprs[1], Repr::IndexedStatic(23));
+            assert_eq!(s.reprs[2], Repr::IndexedStatic(1));
+            assert!(matches!(s.reprs[3], Repr::LiteralNameRefStatic { index: 1, .. }));
+            assert!(matches!(s.reprs[4], Repr::LiteralNameRefStatic { index: 0, .. }));
+            assert!(matches!(s.reprs[5], Repr::LiteralNameRefStatic { index: 95, .. }));
+            assert!(matches!(s.reprs[6], Repr::LiteralName { .. }));
+            assert!(matches!(s.reprs[10], Repr::LiteralName { .. }));
+        }
+        // Every static entry encodes to exactly its own index.
+        for i in 0..99u64 {
+            let fl = static_field(i).unwrap();
+            assert_eq!(best_static_repr(&fl.0, &fl.1), Repr::IndexedStatic(i));
+        }
+        assert_eq!(
+            encode_static_section(&[f(":method", "GET")], false),
+            vec![0x00, 0x00, 0xd1]
+        );
+    }
+
+    #[test]
+    fn sizes() {
+        assert_eq!(section_size(&[]), 0);
+        assert_eq!(section_size(&[f("", "")]), 32);
+        assert_eq!(section_size(&[f(":authority", "www.example.com"), f("a", "bc")]), 57 + 35);
+    }
+
+    // @@TESTS2@@
+}
